@@ -180,6 +180,13 @@ Definition safe (strict sorted hasdata doomed : bool) (s : fs) : bool :=
   | CActive => if hasdata then f_docs s && negb doomed else true
   end.
 
+Definition served_class (s : fs) (hasdata : bool) : bool :=
+  match classify s with
+  | CSealedSD | CSealedD => true
+  | CActive => hasdata
+  | _ => false
+  end.
+
 (* ------------------------------------------------------------------ life cycle of one fraction *)
 
 Inductive mode := MNew | MActive | MSealed | MGone.
@@ -257,7 +264,7 @@ Definition load_dir (sorted : bool) (d : list fracst) : option (list (lkind * fs
 
 (* ------------------------------------------------------------------ retention *)
 
-Definition sumN (l : list N) : N := fold_right N.add 0%N l.
+Fixpoint sumN (l : list N) : N := match l with [] => 0%N | x :: r => (x + sumN r)%N end.
 
 (* shrinkSizes: pop the first fraction while the total exceeds the limit (and a fraction is left) *)
 Fixpoint shrink_from (limit : N) (sizes : list N) (total : N) : nat :=
